@@ -2,6 +2,7 @@ import PcfgVerif.Properties.PQCore
 import PcfgVerif.Lemmas.SoftFloatLemmas
 import PcfgVerif.Properties.ProbsCore
 import PcfgVerif.Generated.WriterLoops
+import PcfgVerif.Lemmas.TrainedWF
 /-!
 # C01 — guesses are emitted in non-increasing probability order
 
@@ -113,5 +114,15 @@ theorem C01_omen_prob_file_sorted :
   have hs := mostCommon_sorted (⟨0, (· + ·), SF.ratio, fun a b => decide (a ≥ b)⟩ : QOps Nat)
     (by intro a b; simp; omega) (by intro a b c h1 h2; simp at *; omega) levels
   exact hs.imp (fun {a b} h => by simpa using h)
+
+/-- **C01 for trained rulesets over binary64, without a well-formedness hypothesis**: take any grid each of whose columns is the list of
+group probabilities the loader model returns on a list file the trainer wrote for some non-empty counter (`TrainedCols`:
+`calculate_probabilities` over binary64, most frequent first; `C07_trained_column_wf`).  Then every prefix of what the queue pops —
+under every tie-breaking of the heap — is non-increasing.  Trusted: `float(repr(x)) == x` (`hround`), clean values (`check_valid`). -/
+theorem C01_trained_order (parseP : CPs → Option Nat) (showP : Nat → CPs) (neg1 : Nat)
+    (hround : ∀ p, parseP (showP p) = some p) (hshow : ∀ p, CleanProb (showP p)) (g : Grid Nat)
+    (hcols : TrainedCols parseP showP neg1 g)
+    (s : PQState) (h : Reach sfAlg.toPOps g (initNodes g) s) : NonIncreasing sfAlg.toPOps g s.popped :=
+  C01_order_binary64 g (trained_grid_wf parseP showP neg1 hround hshow g hcols) s h
 
 end Pcfg.C01
